@@ -57,6 +57,7 @@ type aliasEv struct {
 type aliasSummary struct {
 	writes     map[int]bool // parameter positions (receiver excluded) the function may write or append through
 	modelled   map[int]bool // … and the translation returns the written value (mutParam): a write the model sees
+	stores     map[int]bool // parameter positions whose storage the receiver may still reference after the call
 	recvWrites bool         // writes ELEMENTS reachable from its receiver (re-binding the receiver, `*s = (*s)[n:]`, is not a write)
 	returns    map[int]bool // parameter positions its slice results may share storage with
 }
@@ -280,6 +281,19 @@ func (an *aliasAn) call(c *ast.CallExpr, dst string) {
 				for _, a := range c.Args[1:] {
 					an.reads(a)
 				}
+				if !c.Ellipsis.IsValid() {
+					// append(xs, e) with e a slice: xs (and what it is bound to) holds a reference to e's storage
+					for _, a := range c.Args[1:] {
+						if q, _, _, okq := an.window(a); okq {
+							if p, _, _, okp := an.window(c.Args[0]); okp && p != q {
+								an.add('c', p, q, -1, -1, c.End(), t.src(c))
+							}
+							if dst != "" && dst != q {
+								an.add('c', dst, q, -1, -1, c.End(), t.src(c))
+							}
+						}
+					}
+				}
 				if p, lo, _, ok := an.window(c.Args[0]); ok {
 					// the elements already there are read, the spare capacity behind them is written
 					an.add('r', p, "", lo, -1, c.Args[0].Pos(), t.src(c.Args[0]))
@@ -403,6 +417,11 @@ func (an *aliasAn) call(c *ast.CallExpr, dst string) {
 					an.add('a', "arg#"+fmt.Sprint(i)+" of "+callee.goName, q, -1, -1, c.Pos(), t.src(c))
 					an.add('r', "arg#"+fmt.Sprint(i)+" of "+callee.goName, "", -1, -1, c.End()+1, t.src(c))
 				}
+			}
+		}
+		if sum.stores[i] && recv != nil {
+			if q, ok := pathOf(recv); ok {
+				an.add('c', q, p, -1, -1, c.End(), t.src(c))
 			}
 		}
 		if sum.returns[i] && dst != "" {
@@ -724,6 +743,64 @@ func (an *aliasAn) hazards() []string {
 			}
 		}
 	}
+	// containers: `xs = append(xs, e)` / a receiver that keeps a parameter: xs holds a REFERENCE to e's storage.
+	// A later write into that storage (through e or anything sharing it) shows through xs in Go, not in the
+	// translation; an element write through xs (`xs[i][j] = v`, seen here as a write to xs) shows through e.
+	for ci := range an.evs {
+		ce := &an.evs[ci]
+		if ce.kind != 'c' {
+			continue
+		}
+		inner := map[string]bool{ce.b: true}
+		for changed := true; changed; {
+			changed = false
+			for _, e := range an.evs {
+				if e.kind != 'a' {
+					continue
+				}
+				for q := range inner {
+					if touches(q, e.a) && !inner[e.b] {
+						inner[e.b] = true
+						changed = true
+					}
+					if touches(q, e.b) && !inner[e.a] {
+						inner[e.a] = true
+						changed = true
+					}
+				}
+			}
+		}
+		touchesInner := func(p string) bool {
+			for q := range inner {
+				if touches(p, q) {
+					return true
+				}
+			}
+			return false
+		}
+		for wi := range an.evs {
+			w := &an.evs[wi]
+			if (w.kind != 'w' && w.kind != 'W') || !(follows(ce, w) || (w.pos == ce.pos && compatible(ce, w) && wi > ci)) {
+				continue
+			}
+			for ri := range an.evs {
+				r := &an.evs[ri]
+				if r.kind != 'r' || !follows(w, r) || !compatible(ce, r) {
+					continue
+				}
+				var msg string
+				if touchesInner(w.a) && !touches(w.a, ce.a) && touches(r.a, ce.a) {
+					msg = fmt.Sprintf("%s holds a reference to the storage of %s (%s); `%s` writes it through %s and `%s` then reads %s", ce.a, ce.b, ce.what, w.what, w.a, r.what, r.a)
+				} else if w.kind == 'w' && touches(w.a, ce.a) && touchesInner(r.a) && !touches(r.a, ce.a) {
+					msg = fmt.Sprintf("%s holds a reference to the storage of %s (%s); `%s` writes through %s and `%s` then reads %s", ce.a, ce.b, ce.what, w.what, w.a, r.what, r.a)
+				}
+				if msg != "" && !seen[msg] {
+					seen[msg] = true
+					out = append(out, msg)
+				}
+			}
+		}
+	}
 	// writes the translation does not see at all (append / Sum into spare capacity), then a read of the same storage
 	for wi := range an.evs {
 		w := &an.evs[wi]
@@ -764,12 +841,12 @@ func aliasAnalyse(t *tr, m *fnMeta, sums map[*fnMeta]*aliasSummary) []string {
 	}
 	body := m.bodyOf()
 	if body == nil {
-		sums[m] = &aliasSummary{writes: map[int]bool{}, modelled: map[int]bool{}, returns: map[int]bool{}}
+		sums[m] = &aliasSummary{writes: map[int]bool{}, modelled: map[int]bool{}, returns: map[int]bool{}, stores: map[int]bool{}}
 		return nil
 	}
 	an.stmts(body.List)
 	// summary
-	sum := &aliasSummary{writes: map[int]bool{}, modelled: map[int]bool{}, returns: map[int]bool{}}
+	sum := &aliasSummary{writes: map[int]bool{}, modelled: map[int]bool{}, returns: map[int]bool{}, stores: map[int]bool{}}
 	for i, nm := range m.paramNames() {
 		for _, mp := range m.mutParam {
 			if mp == mangle(nm) {
@@ -803,6 +880,25 @@ func aliasAnalyse(t *tr, m *fnMeta, sums map[*fnMeta]*aliasSummary) []string {
 	recvName := ""
 	if m.decl.Recv != nil && len(m.decl.Recv.List) == 1 && len(m.decl.Recv.List[0].Names) == 1 {
 		recvName = m.decl.Recv.List[0].Names[0].Name
+	}
+	if recvName != "" {
+		for nm, i := range an.params {
+			rel := related(nm)
+			for q := range rel {
+				if q != nm && touches(q, recvName) {
+					sum.stores[i] = true
+				}
+			}
+			for _, e := range an.evs {
+				if e.kind == 'c' && touches(e.a, recvName) {
+					for q := range rel {
+						if touches(q, e.b) {
+							sum.stores[i] = true
+						}
+					}
+				}
+			}
+		}
 	}
 	for _, e := range an.evs {
 		if e.kind == 'w' || e.kind == 'W' {
